@@ -128,35 +128,39 @@ template <> void zero_nodes<AdQRW>(AdQRW& a) {
 }
 
 // ---------------------------------------------------------------------------------------------- thread body
-template <class A> static void body(A& a, int t, std::vector<char>& held) {
+// one operation of a thread's program; false if the operation does not apply (nothing held / already held) and is skipped
+template <class A> static void one_op(A& a, int t, const std::string& op, char& h) {
     int T = t + 1;
-    for (auto& op : PROG[t]) {
-        char& h = held[t];
-        if (op == "lock" || op == "try_lock" || op == "lock_shared" || op == "try_lock_shared") {
-            if (h != 'N') continue;
-            bool w = (op == "lock" || op == "try_lock") || !A::rw; bool ok = true;
-            if (op == "lock") a.lockW(t); else if (op == "lock_shared") a.lockR(t);
-            else if (op == "try_lock") ok = a.tryW(t); else ok = a.tryR(t);
-            if (ok) { long d = g_data; if (w) g_data = d + 1; h = w ? 'W' : 'R'; TR.emit("{\"e\":\"Acq\",\"t\":%d,\"m\":\"%c\",\"d\":%ld}", T, h, d); }
-            else TR.emit("{\"e\":\"TryFail\",\"t\":%d}", T);
-        } else if (op == "upgrade") {
-            if (h != 'R' || !A::rw) continue;
-            TR.emit("{\"e\":\"UpB\",\"t\":%d}", T);
-            bool ok = a.up(t);
-            long d = g_data; g_data = d + 1; h = 'W';
-            TR.emit("{\"e\":\"UpE\",\"t\":%d,\"ok\":%d,\"d\":%ld}", T, ok ? 1 : 0, d);
-        } else if (op == "downgrade") {
-            if (h != 'W' || !A::rw) continue;
-            TR.emit("{\"e\":\"DnB\",\"t\":%d}", T);
-            a.down(t); h = 'R';
-            TR.emit("{\"e\":\"DnE\",\"t\":%d}", T);
-        } else { // rel
-            if (h == 'N') continue;
-            TR.emit("{\"e\":\"Rel\",\"t\":%d}", T);
-            char hh = h; h = 'N';
-            a.rel(t, hh);
-        }
+    if (op == "lock" || op == "try_lock" || op == "lock_shared" || op == "try_lock_shared") {
+        if (h != 'N') return;
+        bool w = (op == "lock" || op == "try_lock") || !A::rw; bool ok = true;
+        if (op == "lock") a.lockW(t); else if (op == "lock_shared") a.lockR(t);
+        else if (op == "try_lock") ok = a.tryW(t); else ok = a.tryR(t);
+        if (ok) { long d = g_data; if (w) g_data = d + 1; h = w ? 'W' : 'R'; TR.emit("{\"e\":\"Acq\",\"t\":%d,\"m\":\"%c\",\"d\":%ld}", T, h, d); }
+        else TR.emit("{\"e\":\"TryFail\",\"t\":%d}", T);
+    } else if (op == "upgrade") {
+        if (h != 'R' || !A::rw) return;
+        TR.emit("{\"e\":\"UpB\",\"t\":%d}", T);
+        bool ok = a.up(t);
+        long d = g_data; g_data = d + 1; h = 'W';
+        TR.emit("{\"e\":\"UpE\",\"t\":%d,\"ok\":%d,\"d\":%ld}", T, ok ? 1 : 0, d);
+    } else if (op == "downgrade") {
+        if (h != 'W' || !A::rw) return;
+        TR.emit("{\"e\":\"DnB\",\"t\":%d}", T);
+        a.down(t); h = 'R';
+        TR.emit("{\"e\":\"DnE\",\"t\":%d}", T);
+    } else { // rel
+        if (h == 'N') return;
+        TR.emit("{\"e\":\"Rel\",\"t\":%d}", T);
+        char hh = h; h = 'N';
+        a.rel(t, hh);
     }
+}
+// Every operation ends in a harness-level schedule point (the specs' local step that ends an operation): a lock that has been acquired is HELD across
+// at least one schedule point, so that another thread's acquisition can be scheduled - and logged - between Acq and Rel.  Without it the logged critical
+// sections are empty (Acq is logged after the acquiring access, Rel before the releasing one) and no interleaving can show two holders.
+template <class A> static void body(A& a, int t, std::vector<char>& held) {
+    for (auto& op : PROG[t]) { one_op(a, t, op, held[t]); yield_point(); }
 }
 
 struct Stats { long paths = 0, steps = 0, drift = 0, mismatch = 0, stuck = 0, untracked = 0; };
@@ -170,6 +174,7 @@ template <class A> static int run(int argc, char** argv) {
         std::map<std::string, int> nacc; { std::ifstream mf(argv[5]); std::string k; int v; while (mf >> k >> v) nacc[k] = v; }
         for (int i = 6; i < argc; i++) PROG.push_back(vh::split(argv[i], ','));
         N = (int)PROG.size();
+        std::string opend = nacc.count("OPEND:Fin2") ? "Fin2" : "Fin";     // the label that ends an operation in this spec (one harness yield)
         std::string line; int shown = 0;
         while (std::getline(in, line) && st.stuck < 10) {   // 10 stuck executions are evidence enough; do not burn the budget
             A a; a.init(N); zero_nodes(a); g_data = 0;
@@ -185,7 +190,7 @@ template <class A> static int run(int argc, char** argv) {
                 if (t < 0 || t >= N) continue;
                 const std::string& op = opi[t] < (int)PROG[t].size() ? PROG[t][opi[t]] : PROG[t].back();
                 int na = 1; auto it = nacc.find(tok.label + "@" + op); if (it == nacc.end()) it = nacc.find(tok.label); if (it != nacc.end()) na = it->second;
-                if (tok.label == "Fin") opi[t]++;
+                if (tok.label == opend) opi[t]++;
                 for (int k = 0; k < na; k++) {
                     if (!S.runnable(t)) { if (!drifted) { ++st.drift; drifted = true; if (shown++ < 5) fprintf(stderr, "SPEC-DRIFT path %ld: thread %d not runnable at %s\n", st.paths, tok.t, tok.label.c_str()); } break; }
                     bool enq = Proj<A>::is_enq(a, S.pending(t));
